@@ -1,14 +1,529 @@
 import Driver.Proto
-/-! Driver sub-command `loader` (stub – filled in by its cluster). -/
+import PtVerif.Model.Loaders
+import PtVerif.Model.LoaderTables
+import PtVerif.Generated.ElementBase
+import PtVerif.Generated.Constants
+import PtVerif.Generated.MassTables
+import PtVerif.Generated.Density
+import PtVerif.Model.LoadersNsf
+import PtVerif.Generated.NsfTables
+import PtVerif.Model.Ancillary
+import PtVerif.Generated.Ancillary
+/-! Driver sub-command `loader`: the table loaders (C06, C07, C20) at `Float`.
+
+Raw table text crosses the protocol hex-encoded (two digits per byte, one token), so that blanks,
+tabs and newlines inside the tables survive the line/token protocol.
+
+    mass_iso <hex> | mass_el <hex> | mass_ab <hex>     set the raw text of a mass table      (no reply)
+    dens_clear | dens <symhex> <m> <e> | dens <symhex> N    `element_densities` entries       (no reply)
+    mass_load              run `mass.init` + `density.init`      R ok | R ERR
+    q_el <z>               R mass unc density number_density interatomic_distance
+    q_iso <z> <a>          R exists mass unc abundance abundance_unc density
+    q_isotopes <z>         R a1 a2 …
+    mass_selfcheck         string-level parse of the raw text = Generated rows?   R ok n | R MISMATCH …
+    pu <hex>               parse_uncertainty                      R value unc | R N N | R ERR
+
+Numbers: 16 hex digits (bit pattern), `N` = None, `X` = the access raises. -/
 namespace Driver.LoaderCmd
-open Driver
+open Driver PtNum PtLoad
+
+def hexNib (c : Char) : Option Nat := PtNum.hexVal c
+
+partial def unhexGo : List Char → Array UInt8 → Option (Array UInt8)
+  | [], acc => some acc
+  | a :: b :: r, acc =>
+    match hexNib a, hexNib b with
+    | some x, some y => unhexGo r (acc.push (UInt8.ofNat (x * 16 + y)))
+    | _, _ => none
+  | _, _ => none
+
+/-- hex token → text (UTF-8) -/
+def unhex (s : String) : Option Str :=
+  if s == "-" then some [] else
+  match unhexGo s.toList #[] with
+  | some bytes => (String.fromUTF8? (ByteArray.mk bytes)).map String.toList
+  | none => none
 
 structure St where
-  dummy : Unit := ()
+  isoText : Str := []
+  elText : Str := []
+  abText : Str := []
+  densRows : List DensityRow := []
+  mass : Option (MassState Float) := none
+  dens : List (Nat × Option Float) := []
+  nsfMain : Str := []
+  nsfImag : Str := []
+  ed : List EDTable := []
+  nsf : Option (NsfState Float) := none
+  covText : Str := []
+  cov : Option (List (Nat × (Float × Option Float))) := none
+  crystIn : List (Option Crystal) := []
+  cryst : Option (List (Nat × Option Crystal)) := none
+  linesText : Str := []
+  xlines : Option (List (Nat × (Dec × Dec))) := none
+  magText : Str := []
+  mag : Option (List ((Nat × Nat) × MagRec)) := none
+  cmText : Str := []
+  cm : Option (List (String × CMEntry)) := none
 
 def init : St := {}
 
+def showO : Option Float → String
+  | some x => showF x
+  | none => "N"
+
+/-- `X` when the attribute does not exist / the access raises -/
+def showOO : Option (Option Float) → String
+  | some x => showO x
+  | none => "X"
+
+def na : Float := PtGen.avogadro_number
+
+def elMassV (ms : MassState Float) (z : Nat) : Option (Option Float) :=
+  (ms.elMassOf z).map fun vu => vu.map (·.1)
+def elMassU (ms : MassState Float) (z : Nat) : Option (Option Float) :=
+  (ms.elMassOf z).map fun vu => vu.map (·.2)
+def isoMassV (ms : MassState Float) (z a : Nat) : Option (Option Float) :=
+  (ms.isoMassOf z a).map fun vu => vu.map (·.1)
+def isoMassU (ms : MassState Float) (z a : Nat) : Option (Option Float) :=
+  (ms.isoMassOf z a).map fun vu => vu.map (·.2)
+
+def qEl (st : St) (ms : MassState Float) (z : Nat) : String :=
+  let m := elMassV ms z
+  let rho := elDensity st.dens z
+  let nd := elNumberDensity na rho m
+  let dist := elInteratomicDistance na rho m
+  s!"{showOO m} {showOO (elMassU ms z)} {showOO rho} {showOO nd} {showOO dist}"
+
+def showX : Option Float → String
+  | some x => showF x
+  | none => "X"
+
+def qIso (st : St) (ms : MassState Float) (z a : Nat) : String :=
+  if !ms.hasIsotope z a then "0" else
+  let ab := ms.isoAbOf z a
+  let dens := isoDensity (elDensity st.dens z) (isoMassV ms z a) (elMassV ms z)
+  s!"1 {showOO (isoMassV ms z a)} {showOO (isoMassU ms z a)} {showX (ab.map (·.1))} {showX (ab.map (·.2))} {showOO dens}"
+
+def sameIso (a b : IsoRow) : Bool :=
+  a.z == b.z && a.sym == b.sym && a.a == b.a && a.m.same b.m && a.avg.same b.avg
+def sameEl (a b : ElRow) : Bool :=
+  a.z == b.z && (match a.value, b.value with
+    | none, none => true
+    | some x, some y => x.same y
+    | _, _ => false)
+def sameAb : AbLine → AbLine → Bool
+  | .header a, .header b => a == b
+  | .entry a u, .entry b w => a == b && u.same w
+  | _, _ => false
+
+def firstDiff {β : Type} (same : β → β → Bool) : Nat → List β → List β → Option Nat
+  | _, [], [] => none
+  | i, x :: xs, y :: ys => if same x y then firstDiff same (i + 1) xs ys else some i
+  | i, _, _ => some i
+
+def massSelfcheck (st : St) : String :=
+  match parseMassTables st.isoText st.elText st.abText with
+  | none => "MISMATCH model-cannot-parse"
+  | some t =>
+    match firstDiff sameIso 0 t.iso PtGen.isoMassRows, firstDiff sameEl 0 t.el PtGen.elMassRows,
+          firstDiff sameAb 0 t.ab PtGen.abLines with
+    | none, none, none => s!"ok {t.iso.length + t.el.length + t.ab.length}"
+    | some i, _, _ => s!"MISMATCH isotope_mass row {i}"
+    | _, some i, _ => s!"MISMATCH element_mass row {i}"
+    | _, _, some i => s!"MISMATCH isotope_abundance line {i}"
+
+def sameDens (a b : DensityRow) : Bool :=
+  a.sym == b.sym && (match a.value, b.value with
+    | none, none => true
+    | some x, some y => x.same y
+    | _, _ => false)
+
+
+/-! ### C07 -/
+
+def efF : Float :=
+  energyFactor PtGen.plancks_constant PtGen.electron_volt PtGen.neutron_mass PtGen.atomic_mass_constant
+
+def nsfEnv (st : St) (ms : MassState Float) : NsfEnv Float :=
+  { symOf := symOf, zOf := zOf
+    nd := fun z => ((elNumberDensity na (elDensity st.dens z) (elMassV ms z)).getD none)
+    hasIso := fun z a => ms.hasIsotope z a
+    ab175 := (ms.isoAbOf 71 175).map (·.1)
+    ab176 := (ms.isoAbOf 71 176).map (·.1)
+    lam0 := PtGen.absorptionWavelength.toNum
+    ef := efF }
+
+def showRec (id : Nat) (r : NRec Float) : String :=
+  let bcc := match r.bcc with
+    | none => "N N"
+    | some (re, im) => s!"{showF (re.getD (0.0 / 0.0))} {showF im}"
+  let tl := match r.table with
+    | none => "N"
+    | some t => toString t.length
+  s!"{id} {showO r.b_c} {showO r.bp} {showO r.bm} {showO r.coherent} {showO r.incoherent} {showO r.total} {showO r.absorption} {showO r.abundance} {if r.isE then 1 else 0} {bcc} {showO r.b_c_i} {showO r.bp_i} {showO r.bm_i} {if r.hasSld then 1 else 0} {tl} {showO r.nd}"
+
+def hexOfStr (s : String) : String :=
+  if s.isEmpty then "-" else
+  String.join (s.toUTF8.toList.map fun b =>
+    String.ofList [Nat.digitChar (b.toNat / 16), Nat.digitChar (b.toNat % 16)])
+
+def readDecs : Toks → Option (List Dec)
+  | [] => some []
+  | m :: e :: r => match intTok m, natTok e, readDecs r with
+    | some m, some e, some l => some (⟨m, e⟩ :: l)
+    | _, _, _ => none
+  | _ => none
+
+def triples : List Dec → List (Dec × Dec × Dec)
+  | a :: b :: c :: r => (a, b, c) :: triples r
+  | _ => []
+
+def uncValSame (a b : Unc) : Bool :=
+  match a.val (α := Rat), b.val (α := Rat) with
+  | none, none => true
+  | some x, some y => x == y
+  | _, _ => false
+
+def sameNsf (a b : NsfRow) : Bool :=
+  a.z == b.z && a.sym == b.sym && a.a == b.a && a.spin == b.spin && a.isE == b.isE
+  && (match a.p, b.p with
+      | none, none => true
+      | some x, some y => uncValSame x y
+      | _, _ => false)
+  && uncValSame a.b_c b.b_c && uncValSame a.bp b.bp && uncValSame a.bm b.bm
+  && uncValSame a.coh b.coh && uncValSame a.inc b.inc && uncValSame a.tot b.tot && uncValSame a.abs b.abs
+
+def sameNsfI (a b : NsfIRow) : Bool :=
+  a.z == b.z && a.a == b.a && uncValSame a.b_c_i b.b_c_i && uncValSame a.bp_i b.bp_i
+  && uncValSame a.bm_i b.bm_i
+
+def sameED (a b : EDTable) : Bool :=
+  a.sym == b.sym && a.a == b.a && a.rows.length == b.rows.length
+  && (a.rows.zip b.rows).all fun (x, y) => x.1.same y.1 && x.2.1.same y.2.1 && x.2.2.same y.2.2
+
+def nsfSelfcheck (st : St) : String :=
+  match mapM? parseNsfLine (lines st.nsfMain), mapM? parseNsfILine (lines st.nsfImag) with
+  | some rows, some irows =>
+    match firstDiff sameNsf 0 rows PtGen.nsfRows, firstDiff sameNsfI 0 irows PtGen.nsfIRows,
+          firstDiff sameED 0 st.ed PtGen.edTables with
+    | none, none, none => s!"ok {rows.length + irows.length + st.ed.length}"
+    | some i, _, _ => s!"MISMATCH nsftable row {i}"
+    | _, some i, _ => s!"MISMATCH nsftableI row {i}"
+    | _, _, some i => s!"MISMATCH ENERGY_DEPENDENT_TABLES entry {i}"
+  | _, _ => "MISMATCH model-cannot-parse"
+
+def handleNsf (st : St) : Toks → IO (Option St)
+  | ["nsf_main", h] => match unhex h with
+    | some t => pure (some { st with nsfMain := t })
+    | none => do reply "ERR bad-hex"; pure (some st)
+  | ["nsf_imag", h] => match unhex h with
+    | some t => pure (some { st with nsfImag := t })
+    | none => do reply "ERR bad-hex"; pure (some st)
+  | ["ed_clear"] => pure (some { st with ed := [] })
+  | "ed" :: s :: a :: rest =>
+    match unhex s, natTok a, readDecs rest with
+    | some s, some a, some ds => pure (some { st with ed := st.ed ++ [⟨symCode s, a, triples ds⟩] })
+    | _, _, _ => do reply "ERR bad-op"; pure (some st)
+  | ["nsf_load"] =>
+    match st.mass with
+    | none => do reply "ERR mass-not-loaded"; pure (some st)
+    | some ms =>
+      match Nsf.loadText (nsfEnv st ms) st.nsfMain st.nsfImag st.ed with
+      | some ns => do reply "ok"; pure (some { st with nsf := some ns })
+      | none => do reply "ERR"; pure (some { st with nsf := none })
+  | ["n_el", z] => do
+    match st.nsf, natTok z with
+    | some ns, some z => reply (showRec (ns.elId z) (ns.elNeutron z))
+    | _, _ => reply "ERR not-loaded"
+    pure (some st)
+  | ["n_iso", z, a] => do
+    match st.nsf, st.mass, natTok z, natTok a with
+    | some ns, some ms, some z, some a =>
+      if !(ms.hasIsotope z a || ns.isotopes.contains (z, a)) then reply "0" else
+      let spin := match aget (z, a) ns.spin with
+        | some s => hexOfStr s
+        | none => "X"
+      reply s!"1 {showRec (ns.isoId z a) (ns.isoNeutron z a)} {spin}"
+    | _, _, _, _ => reply "ERR not-loaded"
+    pure (some st)
+  | ["n_table", z, a] => do
+    match st.nsf, natTok z, natTok a with
+    | some ns, some z, some a =>
+      let r := if a == 0 then ns.elNeutron z else ns.isoNeutron z a
+      match r.table with
+      | none => reply "N"
+      | some t => reply (" ".intercalate (t.map fun p => s!"{showF p.1} {showF p.2.1} {showF p.2.2}"))
+    | _, _, _ => reply "ERR not-loaded"
+    pure (some st)
+  | ["n_at", z, a, lam] => do
+    match st.nsf, natTok z, natTok a, readF lam with
+    | some ns, some z, some a, some lam =>
+      let r := if a == 0 then ns.elNeutron z else ns.isoNeutron z a
+      match r.bcAt lam with
+      | some c => reply s!"{showF c.1} {showF c.2}"
+      | none => reply "N"
+    | _, _, _, _ => reply "ERR not-loaded"
+    pure (some st)
+  | ["nsf_selfcheck"] => do reply (nsfSelfcheck st); pure (some st)
+  | _ => pure none
+
+
+/-! ### C20 -/
+
+def decF (d : Dec) : Float := d.toNum
+
+def readStrDecs : Toks → Option (List (String × Dec))
+  | [] => some []
+  | k :: m :: e :: r => match unhex k, intTok m, natTok e, readStrDecs r with
+    | some k, some m, some e, some l => some ((String.ofList k, ⟨m, e⟩) :: l)
+    | _, _, _, _ => none
+  | _ => none
+
+def sameCov : CovRow → CovRow → Bool
+  | .skip, .skip => true
+  | .row z r d, .row z' r' d' => z == z' && r.same r' && d.same d'
+  | _, _ => false
+
+def sameLine (a b : LineRow) : Bool := a.sym == b.sym && a.kAlpha.same b.kAlpha && a.kBeta1.same b.kBeta1
+
+def sameDecs (a b : List Dec) : Bool := a.length == b.length && (a.zip b).all fun (x, y) => x.same y
+
+def sameMag (a b : MagRow) : Bool :=
+  a.jn == b.jn && a.sym == b.sym && a.charge == b.charge && sameDecs a.values b.values
+
+def sameCM (a b : CMEntry) : Bool :=
+  a.symbol == b.symbol && sameDecs a.a b.a && a.c.same b.c && sameDecs a.b b.b
+
+def sameCrystal : Option Crystal → Option Crystal → Bool
+  | none, none => true
+  | some a, some b => a.symmetry == b.symmetry && a.params.length == b.params.length
+      && (a.params.zip b.params).all fun (x, y) => x.1 == y.1 && x.2.same y.2
+  | _, _ => false
+
+def ancSelfcheck (st : St) : String :=
+  match mapM? parseCovLine (lines st.covText), mapM? parseLineRow (lines st.linesText),
+        parseMag st.magText, parseCM st.cmText with
+  | some cov, some ln, some mg, some cm =>
+    match firstDiff sameCov 0 cov PtGen.corderoRows, firstDiff sameLine 0 ln PtGen.lineRows,
+          firstDiff sameMag 0 mg PtGen.magRows, firstDiff sameCM 0 cm PtGen.cmEntries,
+          firstDiff sameCrystal 0 st.crystIn PtGen.crystalList with
+    | none, none, none, none, none =>
+      s!"ok {cov.length + ln.length + mg.length + cm.length + st.crystIn.length}"
+    | some i, _, _, _, _ => s!"MISMATCH Cordero line {i}"
+    | _, some i, _, _, _ => s!"MISMATCH spectral_lines_data row {i}"
+    | _, _, some i, _, _ => s!"MISMATCH CFML_DATA entry {i}"
+    | _, _, _, some i, _ => s!"MISMATCH f0_WaasKirf entry {i}"
+    | _, _, _, _, some i => s!"MISMATCH crystal_structures slot {i}"
+  | none, _, _, _ => "MISMATCH model-cannot-parse Cordero"
+  | _, none, _, _ => "MISMATCH model-cannot-parse spectral_lines_data"
+  | _, _, none, _ => "MISMATCH model-cannot-parse CFML_DATA"
+  | _, _, _, none => "MISMATCH model-cannot-parse f0_WaasKirf"
+
+def jnOfTok : String → Option Jn
+  | "j0" => some .j0 | "J" => some .J | "j2" => some .j2 | "j4" => some .j4 | "j6" => some .j6
+  | _ => none
+
+def showDecs (l : List Dec) : String := " ".intercalate (l.map fun d => showF (decF d))
+
+def setText (st : St) (which : String) (t : Str) : St :=
+  match which with
+  | "cov" => { st with covText := t }
+  | "lines" => { st with linesText := t }
+  | "mag" => { st with magText := t }
+  | _ => { st with cmText := t }
+
+def handleAnc (st : St) : Toks → IO (Option St)
+  | ["anc_text", which, h] => match unhex h with
+    | some t => pure (some (setText st which t))
+    | none => do reply "ERR bad-hex"; pure (some st)
+  | ["cr_clear"] => pure (some { st with crystIn := [] })
+  | ["cr", "N"] => pure (some { st with crystIn := st.crystIn ++ [none] })
+  | "cr" :: sym :: rest =>
+    match unhex sym, readStrDecs rest with
+    | some s, some ps => pure (some { st with crystIn := st.crystIn ++ [some ⟨String.ofList s, ps⟩] })
+    | _, _ => do reply "ERR bad-op"; pure (some st)
+  | ["cov_load"] =>
+    match mapM? parseCovLine (lines st.covText) with
+    | some rows =>
+      if Cov.rowsOk symOf rows then do reply "ok"; pure (some { st with cov := some (Cov.loadRows rows) })
+      else do reply "ERR"; pure (some { st with cov := none })
+    | none => do reply "ERR"; pure (some { st with cov := none })
+  | ["cov_q", z] => do
+    match st.cov, natTok z with
+    | some t, some z =>
+      match aget z t with
+      | some (r, dr) => reply s!"{showF r} {showO dr}"
+      | none => reply "N N"
+    | _, _ => reply "ERR not-loaded"
+    pure (some st)
+  | ["cr_load"] =>
+    if Crystal.ok symOf st.crystIn then do reply "ok"; pure (some { st with cryst := some (Crystal.load st.crystIn) })
+    else do reply "ERR"; pure (some { st with cryst := none })
+  | ["cr_q", z] => do
+    match st.cryst, natTok z with
+    | some t, some z =>
+      match aget z t with
+      | none => reply "X"
+      | some none => reply "N"
+      | some (some c) =>
+        reply (hexOfStr c.symmetry ++ String.join (c.params.map fun p => s!" {hexOfStr p.1} {showF (decF p.2)}"))
+    | _, _ => reply "ERR not-loaded"
+    pure (some st)
+  | ["lines_load"] =>
+    match mapM? parseLineRow (lines st.linesText) with
+    | some rows =>
+      if Lines.rowsOk zOf rows then do reply "ok"; pure (some { st with xlines := some (Lines.loadRows zOf rows) })
+      else do reply "ERR"; pure (some { st with xlines := none })
+    | none => do reply "ERR"; pure (some { st with xlines := none })
+  | ["lines_q", z] => do
+    match st.xlines, natTok z with
+    | some t, some z =>
+      match aget z t with
+      | some (a, b) => reply s!"{showF (decF a)} {showF (decF b)}"
+      | none => reply "X X"
+    | _, _ => reply "ERR not-loaded"
+    pure (some st)
+  | ["mag_load"] =>
+    match parseMag st.magText with
+    | some rows =>
+      if Mag.rowsOk zOf rows then do reply "ok"; pure (some { st with mag := some (Mag.loadRows zOf rows) })
+      else do reply "ERR"; pure (some { st with mag := none })
+    | none => do reply "ERR"; pure (some { st with mag := none })
+  | ["mag_charges", z] => do
+    match st.mag, natTok z with
+    | some t, some z =>
+      let qs := ((t.filter fun p => p.1.1 == z).map fun p => p.1.2).eraseDups.mergeSort (· ≤ ·)
+      if qs.isEmpty then reply "X" else reply (" ".intercalate (qs.map toString))
+    | _, _ => reply "ERR not-loaded"
+    pure (some st)
+  | ["mag_q", z, q, jn] => do
+    match st.mag, natTok z, natTok q, jnOfTok jn with
+    | some t, some z, some q, some jn =>
+      match aget (z, q) t with
+      | none => reply "X"
+      | some r => match r.get jn with
+        | none => reply "X"
+        | some v => reply (showDecs v)
+    | _, _, _, _ => reply "ERR not-loaded"
+    pure (some st)
+  | ["mag_ff", z, q, jn, qq] => do
+    match st.mag, natTok z, natTok q, jnOfTok jn, readF qq with
+    | some t, some z, some q, some jn, some qq =>
+      match (aget (z, q) t).bind (fun r => r.get jn) with
+      | none => reply "X"
+      | some v =>
+        let vf := v.map decF
+        let r := match jn with
+          | .j0 | .J => formfactor0 vf qq
+          | _ => formfactorN vf qq
+        match r with
+        | some x => reply (showF x)
+        | none => reply "X"
+    | _, _, _, _, _ => reply "ERR not-loaded"
+    pure (some st)
+  | ["cm_load"] =>
+    match parseCM st.cmText with
+    | some es => do reply s!"ok {es.length}"; pure (some { st with cm := some (CM.load es) })
+    | none => do reply "ERR"; pure (some { st with cm := none })
+  | ["cm_q", sym] => do
+    match st.cm, unhex sym with
+    | some t, some s =>
+      match aget (String.ofList s) t with
+      | some e => reply s!"{showDecs e.a} {showF (decF e.c)} {showDecs e.b}"
+      | none => reply "X"
+    | _, _ => reply "ERR not-loaded"
+    pure (some st)
+  | ["cm_key", sym, q] => do
+    match unhex sym with
+    | some s =>
+      let charge : Option (Option Int) := if q == "N" then some none else (intTok q).map some
+      match charge with
+      | some c => reply (hexOfStr (String.ofList (cmKey s c)))
+      | none => reply "ERR bad-op"
+    | none => reply "ERR bad-hex"
+    pure (some st)
+  | ["cm_f0", sym, q, stol] => do
+    match st.cm, unhex sym, readF stol with
+    | some t, some s, some x =>
+      let charge : Option Int := if q == "N" then none else intTok q
+      match aget (String.ofList (cmKey s charge)) t with
+      | some e =>
+        if x > 6 then reply (showF (0.0 / 0.0))
+        else reply (showF (cmAtStol (e.a.map decF) (e.b.map decF) (decF e.c) x))
+      | none => reply "X"
+    | _, _, _ => reply "ERR not-loaded"
+    pure (some st)
+  | ["anc_selfcheck"] => do reply (ancSelfcheck st); pure (some st)
+  | _ => pure none
+
 def handle (st : St) : Toks → IO St
-  | _ => do reply "ERR bad-op"; pure st
+  | ["mass_iso", h] => match unhex h with
+    | some t => pure { st with isoText := t }
+    | none => do reply "ERR bad-hex"; pure st
+  | ["mass_el", h] => match unhex h with
+    | some t => pure { st with elText := t }
+    | none => do reply "ERR bad-hex"; pure st
+  | ["mass_ab", h] => match unhex h with
+    | some t => pure { st with abText := t }
+    | none => do reply "ERR bad-hex"; pure st
+  | ["dens_clear"] => pure { st with densRows := [] }
+  | ["dens", s, "N"] => match unhex s with
+    | some t => pure { st with densRows := st.densRows ++ [⟨symCode t, none⟩] }
+    | none => do reply "ERR bad-hex"; pure st
+  | ["dens", s, m, e] => match unhex s, intTok m, natTok e with
+    | some t, some m, some e => pure { st with densRows := st.densRows ++ [⟨symCode t, some ⟨m, e⟩⟩] }
+    | _, _, _ => do reply "ERR bad-op"; pure st
+  | ["mass_load"] =>
+    let nm : Float := PtGen.neutronMass.toNum
+    let nmu : Float := PtGen.neutronMassUnc.toNum
+    match Mass.loadText symOf nm nmu st.isoText st.elText st.abText with
+    | some ms =>
+      if Density.loadOk zOf st.densRows then do
+        reply "ok"
+        pure { st with mass := some ms, dens := Density.loadRows zOf st.densRows }
+      else do reply "ERR"; pure { st with mass := none }
+    | none => do reply "ERR"; pure { st with mass := none }
+  | ["q_el", z] => do
+    match st.mass, natTok z with
+    | some ms, some z => reply (qEl st ms z)
+    | _, _ => reply "ERR not-loaded"
+    pure st
+  | ["q_iso", z, a] => do
+    match st.mass, natTok z, natTok a with
+    | some ms, some z, some a => reply (qIso st ms z a)
+    | _, _, _ => reply "ERR not-loaded"
+    pure st
+  | ["q_isotopes", z] => do
+    match st.mass, natTok z with
+    | some ms, some z =>
+      let l := (ms.isotopes.filter (·.1 == z)).map (·.2)
+      reply (" ".intercalate ((l.eraseDups.mergeSort (· ≤ ·)).map toString))
+    | _, _ => reply "ERR not-loaded"
+    pure st
+  | ["mass_selfcheck"] => do
+    let d := firstDiff sameDens 0 st.densRows PtGen.densityRows
+    match d with
+    | some i => reply s!"MISMATCH element_densities entry {i}"
+    | none => reply (massSelfcheck st)
+    pure st
+  | ["pu", h] => do
+    match unhex h with
+    | none => reply "ERR bad-hex"
+    | some t =>
+      match parseUncertainty t with
+      | none => reply "ERR"
+      | some u =>
+        match (u.eval : VU Float) with
+        | none => reply "N N"
+        | some (v, d) => reply s!"{showF v} {showF d}"
+    pure st
+  | toks => do
+    match ← handleNsf st toks with
+    | some st' => pure st'
+    | none =>
+      match ← handleAnc st toks with
+      | some st' => pure st'
+      | none => do reply "ERR bad-op"; pure st
 
 end Driver.LoaderCmd
